@@ -12,6 +12,8 @@ import (
 	"encoding/json"
 	"runtime"
 	"runtime/debug"
+	"strings"
+	"sync"
 )
 
 type allocCase struct {
@@ -118,6 +120,19 @@ func runAllocCases(a *args) {
 			report("Get", minAllocs(reps/2, nil, func() { sinkS, sinkE = o.Get(m) }), c.Budget["get"], true, map[string]interface{}{"metric": m})
 			report("Set legal", minAllocs(reps/2, nil, func() { sinkE = o.Set(m, legal) }), c.Budget["set"], true, map[string]interface{}{"metric": m, "value": legal})
 			report("Set illegal", minAllocs(reps/2, nil, func() { sinkE = o.Set(m, illegal) }), c.Budget["set"], true, map[string]interface{}{"metric": m, "value": illegal})
+			if ncase%8 == 1 {
+				// illegal values of every length class (empty, one byte, around typical stack-buffer sizes, long), and a
+				// legal value followed by junk; whatever Set does not refuse is skipped here (C09 reports it)
+				for _, n := range []int{0, 1, 15, 16, 17, 28, 29, 30, 31, 32, 33, 63, 64, 65, 127, 128, 129, 300, 5000} {
+					for _, x := range []string{strings.Repeat("Q", n), legal + strings.Repeat("q", n)} {
+						x := x
+						if o.Clone().Set(m, x) == nil {
+							continue
+						}
+						report("Set illegal (length classes)", minAllocs(3, nil, func() { sinkE = o.Set(m, x) }), c.Budget["set"], true, map[string]interface{}{"metric": m, "value_length": len(x), "value_prefix": x[:min(len(x), 8)]})
+					}
+				}
+			}
 		}
 		// scoring, rating, nomenclature
 		for _, sc := range v.Scores {
@@ -142,4 +157,104 @@ func runAllocCases(a *args) {
 	col.write(a.Out)
 }
 
-func init() { modes["alloccases"] = runAllocCases }
+// allocconc: the same budget with several goroutines inside the same function at the same time (each on its own
+// object): total mallocs of the process / number of calls.  Steady state: a warm-up round first; the garbage
+// collector is off; the only foreign allocations are the goroutines themselves (a few dozen against >= 160,000
+// calls), so the average must stay within 2% of the budget (Vector: 1, ParseVector: <= 1, the others 0).
+func runAllocConc(a *args) {
+	prop := a.Prop
+	col := newCollector("allocconc", prop)
+	gc := debug.SetGCPercent(-1)
+	defer debug.SetGCPercent(gc)
+	G := 8
+	R := 20000
+	if a.Tier == "thorough" {
+		R = 100000
+	}
+	var cases []allocCase
+	readTLCLines(a.In, "@L", func(raw []byte) {
+		var c allocCase
+		if json.Unmarshal(raw, &c) == nil {
+			cases = append(cases, c)
+		}
+	})
+	if len(cases) == 0 {
+		fatal("allocconc: no @L lines")
+	}
+	for _, vn := range verOrder {
+		v := versions[vn]
+		var objs []Obj
+		var vecs []string
+		for i := range cases {
+			c := cases[(i*7+int(a.Seed))%len(cases)]
+			if c.Ver != vn || len(objs) >= G {
+				continue
+			}
+			o := v.Zero()
+			ok := true
+			for i, m := range c.Order {
+				if o.Set(m, c.O[i]) != nil {
+					ok = false
+				}
+			}
+			if _, err := v.Parse(string(bytesOf(c.Vec))); err != nil || !ok {
+				continue
+			}
+			objs = append(objs, o)
+			vecs = append(vecs, string(bytesOf(c.Vec)))
+		}
+		if len(objs) < G {
+			col.count("skipped: fewer than 8 usable objects", 1)
+			continue
+		}
+		type op struct {
+			name   string
+			lo, hi float64
+			f      func(g int)
+		}
+		ops := []op{
+			{"Vector()", 1, 1, func(g int) { runtime.KeepAlive(objs[g].Vector()) }},
+			{"ParseVector", 0, 1, func(g int) { runtime.KeepAlive(v.ParseRaw(vecs[g])) }},
+			{"score", 0, 0, func(g int) { runtime.KeepAlive(objs[g].Score(v.Scores[len(v.Scores)-1])) }},
+		}
+		for _, o := range ops {
+			run := func(r int) float64 {
+				var wg sync.WaitGroup
+				var m1, m2 runtime.MemStats
+				start := make(chan struct{})
+				for g := 0; g < G; g++ {
+					wg.Add(1)
+					go func(g int) {
+						defer wg.Done()
+						<-start
+						safely(func() {
+							for i := 0; i < r; i++ {
+								o.f(g)
+							}
+						})
+					}(g)
+				}
+				runtime.ReadMemStats(&m1)
+				close(start)
+				wg.Wait()
+				runtime.ReadMemStats(&m2)
+				return float64(m2.Mallocs-m1.Mallocs) / float64(G*r)
+			}
+			run(R / 10) // warm-up
+			best := run(R)
+			if x := run(R); x < best {
+				best = x
+			}
+			col.count("concurrent steady-state measurements", 1)
+			col.distinct(vn+o.name, true)
+			col.s.Evaluations += int64(2 * G * R)
+			if best > o.hi+0.02 || best < o.lo-0.02 {
+				col.violate(Violation{Property: prop, Kind: "allocations per call outside the budget when " + o.name + " runs in 8 goroutines at once", Version: vn,
+					Input: map[string]interface{}{"function": o.name, "goroutines": G, "calls_each": R}, Expected: map[string]float64{"min": o.lo, "max": o.hi}, Observed: best})
+			}
+		}
+	}
+	col.write(a.Out)
+}
+
+func init() { modes["alloccases"] = runAllocCases; modes["allocconc"] = runAllocConc }
